@@ -822,6 +822,18 @@ type badgerBatch struct {
 	newRootValue []byte
 
 	mpLock *sync.Mutex
+
+	// dbPtrChanges are the internal database pointers (of in-memory tree nodes) assigned or reset by
+	// this batch. They are rolled back in case the batch is not committed as the tree may be
+	// committed again.
+	dbPtrChanges []dbPtrChange
+	committed    bool
+}
+
+// dbPtrChange is a change of an internal database pointer performed by a batch.
+type dbPtrChange struct {
+	ptr  *node.Pointer
+	prev node.DBPointer
 }
 
 // Implements api.Batch.
@@ -906,6 +918,7 @@ func (ba *badgerBatch) Commit(root node.Root) error {
 		if err := ba.db.checkRootExists(tx, root); err == nil {
 			// No need to do anything since if the hash matches, everything will be identical and we
 			// would just be duplicating work.
+			ba.committed = true
 			ba.Reset()
 			return ba.BaseBatch.Commit(root)
 		}
@@ -971,6 +984,7 @@ func (ba *badgerBatch) Commit(root node.Root) error {
 	}
 	verifCrashPoint("pathbadger.commit.3-after-batch-flush")
 
+	ba.committed = true
 	ba.Reset()
 	return ba.BaseBatch.Commit(root)
 }
@@ -979,6 +993,14 @@ func (ba *badgerBatch) Commit(root node.Root) error {
 func (ba *badgerBatch) Reset() {
 	ba.bat.Cancel()
 	ba.batMeta.Cancel()
+
+	// A batch that was not committed must not leave the positions it assigned behind in the tree.
+	if !ba.committed {
+		for i := len(ba.dbPtrChanges) - 1; i >= 0; i-- {
+			ba.dbPtrChanges[i].ptr.DBInternal = ba.dbPtrChanges[i].prev
+		}
+	}
+	ba.dbPtrChanges = nil
 
 	if ba.readTxn != nil {
 		ba.readTxn.Discard()
